@@ -26,6 +26,7 @@ type Case struct {
 	// clause constraints; "" : Clauses through ParseSliceNb.
 	Front   string   `json:"front,omitempty"`
 	Constrs []gen.PC `json:"constrs,omitempty"`
+	Entry   string   `json:"entry,omitempty"` // CNF bases: "" ParseSliceNb, "cnf" / "cnf-commented" ParseCNF of a DIMACS rendering
 }
 
 func check(c Case, o *vf.Obs) error {
@@ -35,7 +36,15 @@ func check(c Case, o *vf.Obs) error {
 	base := oracle.CNFPred(c.Clauses)
 	var sems []oracle.Constr
 	if c.Front == "" {
-		pb = solver.ParseSliceNb(oracle.CloneCNF(c.Clauses), c.N)
+		if c.Entry == "" {
+			pb = solver.ParseSliceNb(oracle.CloneCNF(c.Clauses), c.N)
+		} else {
+			var err error
+			if pb, err = gs.ParseCNFProblem(c.Entry, c.N, c.Clauses); err != nil {
+				return fmt.Errorf("parse error on a well-formed DIMACS text: %v", err)
+			}
+			o.Class("base-entry-" + c.Entry)
+		}
 	} else {
 		all := append([]gen.PC{}, c.Constrs...)
 		for _, cl := range c.Clauses {
@@ -263,6 +272,7 @@ func genSmall(t *rapid.T) Case {
 	}
 	c.SolveFirst = gen.Chance(t, 1, 4, "solveFirst")
 	c.CP = gen.Chance(t, 1, 4, "cuttingPlanes")
+	c.Entry = rapid.SampledFrom([]string{"", "", "cnf", "cnf-commented"}).Draw(t, "entry")
 	genRounds(t, &c)
 	return c
 }
@@ -292,6 +302,7 @@ func genHard(t *rapid.T) Case {
 	}
 	c.SolveFirst = gen.Chance(t, 1, 4, "solveFirst")
 	c.CP = gen.Chance(t, 1, 4, "cuttingPlanes")
+	c.Entry = rapid.SampledFrom([]string{"", "", "cnf", "cnf-commented"}).Draw(t, "entry")
 	genRounds(t, &c)
 	return c
 }
